@@ -1,4 +1,6 @@
 """C11 — default() returns the documented value."""
+import itertools
+
 from .. import l2, sx
 from .. import run as R
 from ..check import Prop
@@ -119,7 +121,9 @@ class C11(Prop):
                         is_def = True
                     if is_def:
                         if reject == 'value' and vi == dv:
-                            va.append(sx.a_default(sx.m_list(sx.dargs('1'))))
+                            # every kind of value expression: literal, string literal, path, associated path, call
+                            va.append(sx.a_default(sx.m_list(sx.dargs(rng.choice(
+                                ['1', '"abc"', 'K', 'K :: C', 'f ( )', '- 3', '( 2 )'])))))
                         else:
                             va.append(sx.a_default(sx.M_PATH) if rng.random() < 0.6
                                       else sx.a_default(sx.m_list(sx.dargs('_'))))
@@ -142,6 +146,24 @@ class C11(Prop):
             out.append((req, dict(features=tuple(sorted(set(feats))), enum=is_enum, variants=variants, dv=dv,
                                   type_value=type_value, reject=reject, marker=marker,
                                   nontrivial=any(e is not None for _, fl in variants for _, e, _ in fl) or bool(type_value))))
+        # the rejected shapes once more, systematically: every kind of value expression on the variant marker (with and
+        # without a bound next to it), no marker, two markers; both entry points; marker variant first / last
+        U8 = FIELD_CHOICES[0]
+        k = 0
+        for val, mode, pos in itertools.product(['1', '"abc"', 'K', 'K :: C', 'Self :: K', 'f ( )', '- 3', '( 2 )', '{ 1 }'],
+                                                ('attr', 'derive'), (0, 1)):
+            k += 1
+            bnd = [sx.b_ty(sx.tid('u8'))] if k % 3 == 0 else None
+            va = [sx.a_default(sx.m_list(sx.dargs(val, bnd=bnd) if bnd is not None else sx.dargs(val)))]
+            vs = [sx.variant('V0', sx.unnamed([sx.field(sx.tid('u8'))]), attrs=va if pos == 0 else []),
+                  sx.variant('V1', sx.UNIT, attrs=va if pos == 1 else [])]
+            it = sx.enum('E', vs)
+            tl = [('Default', None)]
+            req = sx.inv_attr(sx.dx(tl), it) if mode == 'attr' else sx.inv_derive(
+                '(enum (' + sx.a_derive_ex(sx.dx(tl)) + ' ' + it[len('(enum ('):])
+            out.append((req, dict(features=('reject-value', 'systematic', mode, val.split(' ')[0][:5], 'pos%d' % pos),
+                                  enum=True, variants=[('tuple', []), ('unit', [])], dv=pos, type_value=None,
+                                  reject='value', marker=True, nontrivial=True)))
         return out
 
     def view(self, r, parts):
